@@ -40,6 +40,16 @@ def run_case(ck, paths, idx, cls=None):
     d = ck.tmpdir()
     nt = rng.choice([1, 4])
     script = ["read 0 %s" % f, "run 0 %d 5 -1 -1 -1" % nt, "dump 0"]
+    # a write that fails half way (device full) must not change what later writes produce
+    failing = rng.choice([None, None, "fasta", "msf", "clu"])
+    if failing:
+        script.append("write 0 %s /dev/full" % failing)
+        ck.count("alignments_with_a_failed_write_first")
+    # the target may already exist and be longer than what is written now
+    if rng.random() < 0.3:
+        for F in FORMATS:
+            common.write_bytes("%s/a.%s" % (d, F), (">old_record_%s\n" % F + "ACDEFGHIKLMNPQRSTVWY" * 3 + "\n") * 4000)
+        ck.count("alignments_written_over_longer_existing_files")
     for F in FORMATS:
         script.append("write 0 %s %s/a.%s" % (F, d, F))
     hops = [(F, G) for F in FORMATS for G in FORMATS]
@@ -70,6 +80,10 @@ def run_case(ck, paths, idx, cls=None):
         return
     A_d = nxt("dump")
     A = aln_of_dump(A_d)
+    if failing:
+        w = nxt("write")
+        if w is None or w["rc"] == 0:
+            ck.violation("write-to-full-device-succeeds:%s" % failing, "kalign_write_msa(%s, /dev/full) reported success" % failing, ctx)
     gapfree = all(sum(g) == 0 for _, _, g in A)
     for F in FORMATS:
         w = nxt("write")
